@@ -327,7 +327,7 @@ class ClassLockCheck(object):
             for (i, bf, mode, held) in self.accesses[f.id]:
                 req = self.table[bf][mode]
                 if not satisfied(req, held):
-                    self.missing[f.id].append((((f, i),), bf, mode, req))
+                    self.missing[f.id].append((((f, i),), bf, mode, req, held))
         changed = True
         rounds = 0
         while changed and rounds < 20:
@@ -335,11 +335,11 @@ class ClassLockCheck(object):
             rounds += 1
             for f in self.fns:
                 for (i, callee, held) in self.calls[f.id]:
-                    for (chain, bf, mode, req) in list(self.missing[callee]):
-                        if satisfied(req, held):
+                    for (chain, bf, mode, req, inner) in list(self.missing[callee]):
+                        if satisfied(req, held | inner):       # locks taken inside the helper count together with the caller's
                             continue
                         key = (callee, chain[-1][1], bf, mode, i)
-                        new = (((f, i),) + chain, bf, mode, req)
+                        new = (((f, i),) + chain, bf, mode, req, held | inner)
                         if not any(x[0][0] == (f, i) and x[0][-1] == chain[-1] and x[1] == bf and x[2] == mode for x in self.missing[f.id]):
                             if len(new[0]) <= 6:
                                 self.missing[f.id].append(new)
